@@ -48,3 +48,23 @@ Theorem C07_chamfer_not_simple_when_oversize_exceeds_size : forall size oversize
   x2 e2a = oversize /\ x2 e2b = oversize /\ strictly_between (y2 e2a) (y2 e2b) oversize /\
   y2 e4a = oversize /\ y2 e4b = oversize /\ strictly_between (x2 e4a) (x2 e4b) oversize.
 Proof. exact chamfer_self_intersects. Qed.
+
+(* the closed trig outlines are wound clockwise: shoelace area of circle(r, n) is -n r^2 sin(360/n) < 0 for every
+   radius <> 0 and every n >= 3; likewise inscribed (= circle) and circumscribed polygons *)
+Theorem C07_circle_area : forall (radius : R) (segments : Z) pts, (1 <= segments)%Z -> circle radius segments = Some pts ->
+  area2 pts = (- (IZR segments * (radius * radius) * dsin (360 / IZR segments)))%R.
+Proof. exact circle_area. Qed.
+Theorem C07_circle_clockwise : forall (radius : R) (segments : Z) pts, (3 <= segments)%Z -> radius <> 0%R ->
+  circle radius segments = Some pts -> (area2 pts < 0)%R.
+Proof. exact circle_clockwise. Qed.
+Theorem C07_polygons_clockwise : forall (n_sides : Z) (radius : R) pts, (3 <= n_sides)%Z -> radius <> 0%R ->
+  (inscribed_polygon n_sides radius = Some pts -> (area2 pts < 0)%R) /\
+  (circumscribed_polygon n_sides radius = Some pts -> (area2 pts < 0)%R).
+Proof. intros n r pts Hn Hr. split; [apply circle_clockwise; assumption|apply circumscribed_clockwise; assumption]. Qed.
+(* tangency: for every edge a -> b of circumscribed_polygon(n, r), (a x b)^2 = r^2 |b - a|^2, i.e. the line through
+   the edge passes the origin at distance exactly r (all n >= 3, including the closing edge) *)
+Theorem C07_circumscribed_tangent : forall (n_sides : Z) (radius : R) pts (i : nat), (3 <= n_sides)%Z ->
+  circumscribed_polygon n_sides radius = Some pts -> (i < Z.to_nat n_sides)%nat ->
+  let a := nth i pts (Pt2 0 0)%R in let b := nth (if Nat.eqb i (Z.to_nat n_sides - 1) then 0 else i + 1)%nat pts (Pt2 0 0)%R in
+  (cross2 a b * cross2 a b = radius * radius * pt2_len2 (pt2_sub b a))%R.
+Proof. exact circumscribed_tangent. Qed.
